@@ -9,6 +9,7 @@ from ..idx import index
 from ..px import OK, PX, RAISE, Outcomes
 from ..pxv import Obj, Sym
 from ..te import ClassRef, FuncRef, Member, TypeRef
+from .util import anchor_attrs
 from .util import const, fut, same_class, self_obj, text, who_may_call
 
 PROTO = "bellows.ezsp.protocol"
@@ -80,6 +81,7 @@ def r06_1(ctx):
     header carries the current sequence number, the pending entry is registered under that same number with the
     command's own frame ID and response schema, the number then advances to (n+1) % 256 - all in one event-loop
     turn and before the frame is handed to the link - and the registered future is the one awaited."""
+    anchor_attrs(ctx, "ProtocolHandler", "_seq", "_awaiting", "_gw", "_send_semaphore")
     for v in (4, 5, 8):
         name = "version"
         cid, _, rx = handler_commands(ctx, v)[name]
@@ -270,6 +272,7 @@ def r06_7(ctx):
     unknown ID returns before any decode, completion or callback; a decode failure is re-raised before any
     completion or callback; a frame that matches no pending sequence yields exactly one callback; one that matched
     yields none; a completed/cancelled future is tolerated."""
+    anchor_attrs(ctx, "ProtocolHandler", "_awaiting", "COMMANDS_BY_ID", "_handle_callback")
     repo = ctx.repo
     f = repo.func(f"{PROTO}:ProtocolHandler.__call__")
     ctx.fn(f)
@@ -376,6 +379,7 @@ def r06_7(ctx):
 def r06_8(ctx):
     """Callback fan-out: EZSP.handle_callback invokes every registered callback exactly once with the frame, and
     an exception raised by one callback neither escapes nor stops the others."""
+    anchor_attrs(ctx, "EZSP", "_callbacks")
     repo = ctx.repo
     f = repo.func("bellows.ezsp:EZSP.handle_callback")
     ctx.fn(f)
